@@ -857,6 +857,14 @@ def on_abnormal(case, kind, info):
                 return K.result("violated", key="codec-library/pyppmd-alloc-failure-abort",
                                 what="family %s: the input declares a PPMd model of %d bytes (order %d); pyppmd alone, in a fresh process whose address-space limit is below the declared model, aborts "
                                      "the process when that allocation fails (%s)" % (fam, mem, order, (info or "").strip()[-60:]))
+    if kind.startswith("crash:") and "KILL" not in kind and fam != "intact" and not (fam == "repeat" and case.get("arc") and not case.get("ops")):
+        from vf.core import runner
+
+        b = runner.blocked_inside(info)
+        if b and b[0].endswith("/py7zr/compressor.py") and b[3] == "PpmdDecompressor":
+            # the interpreter died inside pyppmd's decode() on a stream that is not a valid PPMd stream of the declared length
+            return K.result("violated", key="codec-library/pyppmd-decoder-crash-on-hostile-stream",
+                            what="family %s: %s with the main thread inside PpmdDecompressor.decompress (pyppmd asked to decode a damaged stream or past its end)" % (fam, kind))
     if kind.startswith("crash:"):
         if "KILL" in kind:
             return K.result("violated", key="killed/%s" % fam, what="worker was killed (out of memory?) on family %s" % fam)
